@@ -55,6 +55,7 @@ pub fn traced_run<K: SimKey>(case: &Case, out: &mut Outcome, snap: bool) -> Trac
     interpose::install(sim);
     let wl = &case.workload;
     let mut w = World::<K>::new(&base, wl);
+    w.own = case.property.clone();
     let mut models = Vec::new();
     let mut failure = None;
     with_sim(|s| s.begin_op(OPEN_OP));
@@ -97,6 +98,9 @@ pub fn traced_run<K: SimKey>(case: &Case, out: &mut Outcome, snap: bool) -> Trac
     out.counters.runs = 1;
     out.counters.ops = w.probes.ops;
     out.probes = w.probes.clone();
+    if out.foreign.is_none() {
+        out.foreign = w.foreign.borrow_mut().take();
+    }
     Traced { world: w, snaps, models, failure, sim, base }
 }
 
